@@ -278,9 +278,10 @@ class MuSigTapScript(TapScript):
         return sum_1, sum_2
 
     def compute_coefficient(self, nonce_sums, sig_hash):
-        bytes_to_hash = (
-            nonce_sums[0].sec() + nonce_sums[1].sec() + self.point.xonly() + sig_hash
-        )
+        # a nonce sum is the point at infinity when the participants' nonces
+        # cancel; BIP327 serializes it as 33 zero bytes
+        secs = [b"\x00" * 33 if n.x is None else n.sec() for n in nonce_sums]
+        bytes_to_hash = secs[0] + secs[1] + self.point.xonly() + sig_hash
         return big_endian_to_int(hash_musignonce(bytes_to_hash))
 
     def compute_k(self, nonce_secrets, nonce_sums, sig_hash):
